@@ -193,6 +193,22 @@ def clause_b(c: Check):
                  'the wrapper gives %s to the process executor, not its own settings argument' % (
                      unparse(a) if a is not None else None), w.loc())
     c.require(seen == {'failed', 'exit-code'}, 'C19-b: wrapper outcomes %s' % seen)
+    # what the process executor itself catches when the process cannot be started or times out is raised on as its
+    # own exception on every path of every handler: no handler makes up an exit code for a process that never ran
+    pex = ix.cls(PE + ':ProcessExecutionException')
+    n_h = 0
+    for tr in ast.walk(fd.node):
+        if isinstance(tr, ast.Try):
+            for h in tr.handlers:
+                n_h += 1
+                stmts = [st_ for st_ in h.body if not (isinstance(st_, ast.Expr) and isinstance(st_.value, ast.Constant))]
+                last = stmts[-1] if stmts else None
+                raises = isinstance(last, ast.Raise) and not any(isinstance(x, ast.Return) for x in ast.walk(h))
+                c.expect(raises, 'C19-b', 'ProcessExecutor.execute/handler-raises/%s' % (unparse(h.type) if h.type is not None else 'any'),
+                         'the handler of %s in ProcessExecutor.execute does not end by raising: a process that could not '
+                         'be started (or timed out) is given an exit code as if it had run' % (
+                             unparse(h.type) if h.type is not None else 'every exception'), '%s:%d' % (fd.module.relpath, h.lineno))
+    c.floor('C19-b', 'handlers in ProcessExecutor.execute', n_h, 1)
     # layering
     pcls = ix.cls(PE + ':ProcessExecutor')
     for s in util.call_sites_of(ix, pcls):
